@@ -1011,6 +1011,18 @@ func (env *Env) call(e *ast.CallExpr) Term {
 			g.compDecl(comp, "Int")
 			return intT(g.get(env.st, comp))
 		}
+	case "chanclosed", "chandrained":
+		// ghost flags of a channel: close(ch) was executed / a receive reported ok == false (closed and empty)
+		argn(1)
+		{
+			ch := env.tr(e.Args[0])
+			comp := "CHC"
+			if name == "chandrained" {
+				comp = "CHD"
+			}
+			g.compDecl(comp, "(Array Int Bool)")
+			return boolT(fmt.Sprintf("(select %s %s)", g.get(env.st, comp), ch.S))
+		}
 	case "sref":
 		// sref(s): the identity of the backing array of slice s (0 for nil); arrays allocated later have larger identities
 		argn(1)
@@ -1226,6 +1238,11 @@ func (g *Gen) modLocs(env *Env, m *Clause) []modLoc {
 			ct := types.Unalias(x.T).Underlying().(*types.Chan)
 			cnt, _ := g.recvComp(ct)
 			return []modLoc{{whole: cnt, exceptRef: x.S}}
+		}
+		if id, ok := c.Fun.(*ast.Ident); ok && id.Name == "closed" {
+			x := env.tr(c.Args[0])
+			g.compDecl("CHC", "(Array Int Bool)")
+			return []modLoc{{whole: "CHC", exceptRef: x.S}}
 		}
 		if id, ok := c.Fun.(*ast.Ident); ok && id.Name == "sent" {
 			x := env.tr(c.Args[0])
